@@ -27,7 +27,7 @@ theorem J_fail {c : Cfg} {s0 s : St} (h : J c s0 s) : J c s0 (fail s) := by
   refine ⟨h.fin_ok, h.tmp_fresh, h.tmp_ok, h.notrun, ?_, h.nofailed, h.unchanged, h.okruns, h.ok_runs⟩
   simp [fail]
 
-/-- bumping the clock, or changing fields the invariant does not mention, keeps `J` -/
+/-- changing fields the invariant does not mention, keeps `J` -/
 theorem J_congr {c : Cfg} {s0 s s' : St} (h : J c s0 s)
     (h1 : s'.finalOut = s.finalOut) (h2 : s'.tempOut = s.tempOut) (h3 : s'.cmd = s.cmd)
     (h4 : s'.finpc = s.finpc) (h5 : s'.okRuns = s.okRuns) : J c s0 s' := by
@@ -42,11 +42,11 @@ theorem J_congr {c : Cfg} {s0 s s' : St} (h : J c s0 s)
   · rw [h5]; exact h.okruns
   · rw [h3, h5]; exact h.ok_runs
 
-theorem appendTo_fresh (o : Option File) (ch st : Nat) (f : File) (ho : ∀ g, o = some g → g.fresh = true)
-    (h : appendTo o ch st = some f) : f.fresh = true ∧ f.complete = false := by
+theorem appendTo_fresh (o : Option File) (ch : Nat) (f : File)
+    (h : appendTo o ch = some f) : f.fresh = true ∧ f.complete = false := by
   cases o with
   | none => simp [appendTo] at h; subst h; simp
-  | some g => simp [appendTo] at h; subst h; simp [ho g rfl]
+  | some g => simp [appendTo] at h; subst h; simp
 
 theorem stepCmd_J (sem : Sem) (hwf : WF_C01 sem) (c : Cfg) (s0 s : St) (todo : List Act)
     (h : J c s0 s) (hc : s.cmd = .inRun todo) (hf : s.finpc = none) :
@@ -91,7 +91,7 @@ theorem stepCmd_J (sem : Sem) (hwf : WF_C01 sem) (c : Cfg) (s0 s : St) (todo : L
         intro q f hq
         simp only [upd] at hq
         split at hq
-        · exact (appendTo_fresh _ _ _ f (fun g hg => h.tmp_fresh p g hg) hq).1
+        · exact (appendTo_fresh _ _ f hq).1
         · exact h.tmp_fresh q f hq
       · refine ⟨h.fin_ok, h.tmp_fresh, by simp, by simp, by simp [hf], by simp, h.unchanged, h.okruns, by simp⟩
 
@@ -177,7 +177,7 @@ theorem step_J (sem : Sem) (hwf : WF_C01 sem) (c : Cfg) (s0 s s' : St)
           exact J_congr h rfl rfl rfl rfl rfl
         · rename_i op rest hpc
           -- the state after popping the op and bumping the clock
-          have hb : J c s0 { s with pc := rest, clock := s.clock + 1 } := J_congr h rfl rfl rfl rfl rfl
+          have hb : J c s0 { s with pc := rest } := J_congr h rfl rfl rfl rfl rfl
           cases op with
           | checkTempDir =>
             simp at hs; subst hs
